@@ -228,4 +228,40 @@ MUTANTS = [
     (_T1, "TensorNetwork1DFlat.compress", "            self.right_compress(\n                stop=self.L // 2, create_bond=create_bond, **compress_opts\n            )", "            self.right_compress(\n                stop=self.L // 2, create_bond=create_bond\n            )", "expect-fail"),
     (_T1, "TensorNetwork1DFlat.compress", '        if form is None:\n            form = "right"', '        if form is None:\n            form = "left"', "expect-fail"),
     (_T1, "TensorNetwork1DFlat.compress", '        elif form == "left":\n            self.right_canonize(', '        elif form == "right":\n            self.right_canonize(', "expect-fail"),
+    # ---- C12: 2D boundary contraction bookkeeping (tn2d/core.py)
+    (_T2, "._contract_interleaved_boundary_sequence", "            separations[xy] -= 1\n", "            separations[xy] -= 2\n", "expect-fail"),
+    (_T2, "._contract_interleaved_boundary_sequence", "            separations[xy] -= 1\n", "            pass\n", "expect-fail"),
+    (_T2, "._contract_interleaved_boundary_sequence", '            if minmax == "min":\n                boundaries[direction] += 1\n            else:\n                boundaries[direction] -= 1', '            if minmax == "min":\n                boundaries[direction] -= 1\n            else:\n                boundaries[direction] += 1', "expect-fail"),
+    (_T2, "._contract_interleaved_boundary_sequence", '            if minmax == "min":\n                boundaries[direction] += 1', '            if minmax == "max":\n                boundaries[direction] += 1', "expect-fail"),
+    (_T2, "._contract_interleaved_boundary_sequence", 'xrange = (boundaries["xmin"], boundaries["xmin"] + 1)', 'xrange = (boundaries["xmin"] + 1, boundaries["xmin"] + 2)', "expect-fail"),
+    (_T2, "._contract_interleaved_boundary_sequence", 'xrange = (boundaries["xmax"] - 1, boundaries["xmax"])', 'xrange = (boundaries["xmax"], boundaries["xmax"] + 1)', "expect-fail"),
+    (_T2, "._contract_interleaved_boundary_sequence", 'yrange = (boundaries["ymin"], boundaries["ymin"] + 1)', 'yrange = (boundaries["ymin"], boundaries["ymin"])', "expect-fail"),
+    (_T2, "._contract_interleaved_boundary_sequence", 'yrange = (boundaries["ymax"] - 1, boundaries["ymax"])\n                xrange = (boundaries["xmin"], boundaries["xmax"])', 'yrange = (boundaries["ymax"] - 1, boundaries["ymax"])\n                xrange = (boundaries["xmin"], boundaries["xmax"] - 1)', "expect-fail"),
+    (_T2, "._contract_interleaved_boundary_sequence", '                yrange = (boundaries["ymin"], boundaries["ymax"])\n            else:  # y', '                yrange = (boundaries["xmin"], boundaries["xmax"])\n            else:  # y', "expect-fail"),
+    (_T2, "._contract_interleaved_boundary_sequence", "(separations[direction[0]] <= max_separation)", "(separations[direction[0]] < max_separation)", "expect-fail"),
+    (_T2, "._contract_interleaved_boundary_sequence", "(separations[direction[0]] <= max_separation)", "(separations[direction[0]] <= max_separation - 2)", "expect-fail"),
+    (_T2, "._contract_interleaved_boundary_sequence", "            # do a contraction, and keep direction in sequence to try again\n            sequence.append(direction)", "            # do a contraction, and keep direction in sequence to try again\n            sequence.append(direction)\n            sequence.append(direction)", "expect-fail"),
+    (_T2, "._contract_interleaved_boundary_sequence", "                from_which=direction,\n                equalize_norms=equalize_norms,\n                **contract_boundary_opts,", "                from_which=direction,\n                equalize_norms=equalize_norms,", "expect-fail"),
+    (_T2, "._contract_interleaved_boundary_sequence", "                from_which=direction,\n                equalize_norms=equalize_norms,\n                **contract_boundary_opts,", "                from_which=direction,\n                equalize_norms=equalize_norms,\n                **{**contract_boundary_opts, 'max_bond': None},", "expect-fail"),
+    (_T2, "._contract_interleaved_boundary_sequence", "                from_which=direction,\n                equalize_norms=equalize_norms,\n                **contract_boundary_opts,", "                from_which='xmin',\n                equalize_norms=equalize_norms,\n                **contract_boundary_opts,", "expect-fail"),
+    (_T2, "._contract_interleaved_boundary_sequence", "            tn.contract_boundary_from_(\n                xrange=xrange,", "            self.contract_boundary_from_(\n                xrange=xrange,", "expect-fail"),
+    (_T2, "._contract_interleaved_boundary_sequence", "        tn = self if inplace else self.copy()\n\n        contract_boundary_opts = ensure_dict(contract_boundary_opts)", "        tn = self\n\n        contract_boundary_opts = ensure_dict(contract_boundary_opts)", "expect-fail"),
+    (_T2, "._contract_interleaved_boundary_sequence", "            if strip_exponent:\n                # but we won't redistribute norms (`True`) during contraction\n                equalize_norms = 1.0", "            if not strip_exponent:\n                # but we won't redistribute norms (`True`) during contraction\n                equalize_norms = 1.0", "expect-fail"),
+    (_T2, "._contract_interleaved_boundary_sequence", "        if equalize_norms is True:\n            tn.equalize_norms_()", "        if equalize_norms:\n            tn.equalize_norms_()", "expect-fail"),
+    (_T2, "._contract_interleaved_boundary_sequence", "        if final_contract and (around is None):", "        if final_contract:", "expect-fail"),
+    (_T2, "._contract_interleaved_boundary_sequence", '            final_contract_opts.setdefault("inplace", inplace)', '            final_contract_opts.setdefault("inplace", True)', "expect-fail"),
+    (_T2, "._contract_interleaved_boundary_sequence", '            "xmax": auto_xmax if xmax is None else xmax,', '            "xmax": auto_xmax if xmax is None else xmax - 1,', "expect-fail"),
+    (_T2, "._contract_interleaved_boundary_sequence", '            "ymin": auto_ymin if ymin is None else ymin,', '            "ymin": auto_xmin if ymin is None else ymin,', "expect-fail"),
+    (_T2, "._contract_interleaved_boundary_sequence", 'd: boundaries[f"{d}max"] - boundaries[f"{d}min"] for d in "xy"', 'd: boundaries[f"{d}max"] - boundaries[f"{d}min"] + 1 for d in "xy"', "expect-fail"),
+    (_T2, "TensorNetwork2D.contract_boundary", '        contract_boundary_opts["max_bond"] = max_bond\n        contract_boundary_opts["mode"] = mode\n        contract_boundary_opts["cutoff"] = cutoff\n        contract_boundary_opts["canonize"] = canonize\n        contract_boundary_opts["layer_tags"]', '        contract_boundary_opts["max_bond"] = None\n        contract_boundary_opts["mode"] = mode\n        contract_boundary_opts["cutoff"] = cutoff\n        contract_boundary_opts["canonize"] = canonize\n        contract_boundary_opts["layer_tags"]', "expect-fail"),
+    (_T2, "TensorNetwork2D.contract_boundary", '        contract_boundary_opts["max_bond"] = max_bond\n        contract_boundary_opts["mode"] = mode\n        contract_boundary_opts["cutoff"] = cutoff\n        contract_boundary_opts["canonize"] = canonize\n        contract_boundary_opts["layer_tags"]', '        contract_boundary_opts["max_bond"] = max_bond\n        contract_boundary_opts["mode"] = mode\n        contract_boundary_opts["cutoff"] = 0.0\n        contract_boundary_opts["canonize"] = canonize\n        contract_boundary_opts["layer_tags"]', "expect-fail"),
+    (_T2, "TensorNetwork2D.contract_boundary", '        contract_boundary_opts["max_bond"] = max_bond\n        contract_boundary_opts["mode"] = mode\n        contract_boundary_opts["cutoff"] = cutoff\n        contract_boundary_opts["canonize"] = canonize\n        contract_boundary_opts["layer_tags"]', '        contract_boundary_opts["mode"] = mode\n        contract_boundary_opts["cutoff"] = cutoff\n        contract_boundary_opts["canonize"] = canonize\n        contract_boundary_opts["layer_tags"]', "expect-fail"),
+    (_T2, "TensorNetwork2D.contract_boundary", "            max_separation=max_separation,\n            max_unfinished=max_unfinished,\n            around=around,\n            strip_exponent=strip_exponent,\n            equalize_norms=equalize_norms,\n            final_contract=final_contract,\n            final_contract_opts=final_contract_opts,\n            progbar=progbar,\n            inplace=inplace,\n        )\n\n    contract_boundary_ =", "            max_separation=max_separation,\n            max_unfinished=max_unfinished,\n            around=around,\n            strip_exponent=strip_exponent,\n            equalize_norms=equalize_norms,\n            final_contract=final_contract,\n            final_contract_opts=final_contract_opts,\n            progbar=progbar,\n            inplace=True,\n        )\n\n    contract_boundary_ =", "expect-fail"),
+    (_T2, "TensorNetwork2D.contract_boundary", "            xmin=xmin,\n            xmax=xmax,\n            ymin=ymin,\n            ymax=ymax,\n            max_separation=max_separation,\n            max_unfinished=max_unfinished,", "            xmin=xmin,\n            xmax=xmax,\n            ymin=ymax,\n            ymax=ymin,\n            max_separation=max_separation,\n            max_unfinished=max_unfinished,", "expect-fail"),
+    (_T2, "TensorNetwork2D.contract_boundary_from", '        contract_boundary_opts["max_bond"] = max_bond\n\n        if mode == "full-bond":', '        contract_boundary_opts["max_bond"] = None\n\n        if mode == "full-bond":', "expect-fail"),
+    (_T2, "TensorNetwork2D.contract_boundary_from", '        contract_boundary_opts["cutoff"] = cutoff\n        contract_boundary_opts["compress_opts"] = compress_opts', '        contract_boundary_opts["compress_opts"] = compress_opts', "expect-fail"),
+    (_T2, "TensorNetwork2D.contract_boundary_from", '        contract_boundary_opts["xrange"] = xrange\n        contract_boundary_opts["yrange"] = yrange', '        contract_boundary_opts["xrange"] = yrange\n        contract_boundary_opts["yrange"] = xrange', "expect-fail"),
+    (_T2, "TensorNetwork2D.contract_boundary_from", '        if mode == "mps":\n            tn._contract_boundary_core(**contract_boundary_opts)\n            return tn', '        if mode == "mps":\n            self._contract_boundary_core(**contract_boundary_opts)\n            return tn', "expect-fail"),
+    (_T2, "TensorNetwork2D.contract_boundary_from", '        if mode == "mps":\n            tn._contract_boundary_core(**contract_boundary_opts)\n            return tn', '        if mode == "mps":\n            tn._contract_boundary_core(**contract_boundary_opts)\n            return self', "expect-fail"),
+    (_T2, "TensorNetwork2D.contract_boundary_from", '        contract_boundary_opts["sweep_reverse"] = sweep_reverse', '        contract_boundary_opts["sweep_reverse"] = not sweep_reverse', "expect-fail"),
 ]
